@@ -150,7 +150,18 @@ var subjectSets = []map[string]subject{
 		"a": {"alice@example.com", "at-alice-1", "rt-alice-1", [][]string{{"eng"}, {"eng"}}},
 		"b": {"alice@example.com", "at-alice-2", "rt-alice-2", [][]string{{"eng", "ops"}, {"ops", "eng"}}},
 	},
+	{ // subjects that differ only far into their names: tokens of one issuer share a long header, mailboxes of one
+		// team a long stem, group sets a long common part (a key cut short, hashed weakly or compared by prefix merges them)
+		"a": {longStem + "alice@example.com", longJWT + "YWxpY2U.sig-1", longJWT + "cnQtYWxpY2U.sig-1", [][]string{{"eng", "ops", longGroup + "1"}, {longGroup + "1", "ops", "eng"}}},
+		"b": {longStem + "bob@example.com", longJWT + "Ym9i.sig-2", longJWT + "cnQtYm9i.sig-2", [][]string{{"eng", "ops", longGroup + "2"}, {longGroup + "2", "eng", "ops"}}},
+	},
 }
+
+const (
+	longJWT   = "eyJhbGciOiJSUzI1NiIsImtpZCI6IjRiODNmMTgwMjNhODU1NTg3ZjRhZjFjMmI5Y2E4N2YwYjQ4ZTU5NTIifQ.eyJpc3MiOiJodHRwczovL2FjY291bnRzLmV4YW1wbGUuY29tIiwiYXVkIjoic3NvIiwi"
+	longStem  = "platform-reliability-and-developer-experience-shared-mailbox-for-the-emea-region+"
+	longGroup = "org-emea-platform-reliability-and-developer-experience-oncall-rotation-tier-"
+)
 
 var subjects = subjectSets[0]
 
